@@ -990,7 +990,9 @@ class Interp:
             if n.func.id == 'old' and self.old_env is not None:
                 return self.engine.eval_old(self, n.args[0], env)
             if n.func.id == 'old' and self.p.spec_mode:
-                return self.eval(n.args[0], env)       # evaluated in the pre-state: old(e) is e
+                if getattr(self, 'in_prestate', False) or getattr(self, 'in_invariant', False):
+                    return self.eval(n.args[0], env)       # evaluated in the pre-state: old(e) is e
+                raise Unsupported('old() outside a postcondition')
             if n.func.id == 'implies' and self.p.spec_mode and len(n.args) == 2:
                 x = self.eval(n.args[0], env)
                 if x is False:
